@@ -131,4 +131,47 @@ theorem purchaseAlias_ledger {s s' : State} {a : Acct} {l : AliasId} {offer : Na
     · subst hxa; simp only [if_true]; omega
     · simp [hxa]
 
+/-- **placing or raising a buy order on an alias**: a new order escrows exactly the offer, a raise
+    only the difference to the previous offer; nobody else's balance moves; the buyer owns the
+    destination RollApp, which is not the RollApp the alias belongs to -/
+theorem placeAliasBO_ledger {s s' : State} {a : Acct} {l : AliasId} {offer : Nat} {cont : Option (Bool × Nat)} {dst : Chain}
+    (h : placeAliasBO s a l offer cont dst = .ok s') :
+    isCreator s dst a = true ∧ AMap.get s.al.aliasTo l ≠ some dst ∧ s.p.minOffer ≤ offer ∧
+    (∀ x, x ≠ a → balOf s' x = balOf s x) ∧
+    (match cont with
+     | none => balOf s' a + offer = balOf s a ∧
+               AMap.get s'.bos (s.boCount + 1) = some ⟨true, l, dst, a, offer, 0⟩
+     | some (_, id) => ∃ bo, AMap.get s.bos id = some bo ∧ bo.buyer = a ∧ bo.isAlias = true ∧ bo.asset = l ∧ bo.offer < offer ∧
+               balOf s' a + (offer - bo.offer) = balOf s a ∧ AMap.get s'.bos id = some { bo with offer := offer }) := by
+  unfold placeAliasBO at h
+  mcases' h
+  rename (validateContinue s true a l offer cont = Except.ok _) => hv
+  rename (validateAliasDst s a l dst = Except.ok _) => hd
+  have hdst : isCreator s dst a = true ∧ AMap.get s.al.aliasTo l ≠ some dst := by
+    unfold validateAliasDst at hd
+    mcases' hd
+    rename (AMap.get s.al.aliasTo l = some _) => hsrc
+    refine ⟨by assumption, ?_⟩
+    rw [hsrc]
+    intro e; injection e with e
+    rename (¬ dst = _) => hne
+    exact hne e.symm
+  refine ⟨hdst.1, hdst.2, by assumption, ?_⟩
+  unfold putBO at h
+  rcases validateContinue_cases hv with ⟨rfl, rfl⟩ | ⟨pfx, id, bo, rfl, rfl, hg, hlt, hbuy, hal, has⟩
+  · simp only at h
+    obtain ⟨rfl, hle⟩ := toModule_ok h
+    refine ⟨fun x hx => ?_, ?_, ?_⟩
+    · rw [balOf_toModuleT]; simp only [hx, if_false]; exact balOf_congr rfl x
+    · rw [balOf_toModuleT]; simp only [if_true]
+      simp only [balOf] at hle ⊢; omega
+    · simp [toModuleT]
+  · simp only at h
+    obtain ⟨rfl, hle⟩ := toModule_ok h
+    refine ⟨fun x hx => ?_, bo, hg, hbuy, hal, has, hlt, ?_, ?_⟩
+    · rw [balOf_toModuleT]; simp only [hx, if_false]; exact balOf_congr rfl x
+    · rw [balOf_toModuleT]; simp only [if_true]
+      simp only [balOf] at hle ⊢; omega
+    · simp [toModuleT]
+
 end DymVerif.DymNS
